@@ -1123,18 +1123,10 @@ def mb_g_fails(a):
     return False
 
 
-def norm_over_nothing(c):
-    """mean / var / stddev to the left of a g whose run-time validation FAILS: the view functions unwrap the Nothing operand"""
-    if not c.req.startswith('c14_mb '):
-        return False
-    a = _args(c)
-    return a.get('f') in ('mean', 'var', 'stddev') and mb_g_fails(a)
-
-
 def maybe_operand_all_at_once(c):
     """a functor of arity 2 called with both operands at once, one of them a maybe<view> that has a value"""
     return c.req.startswith('c14_mbcall ') and not mb_g_fails(_args(c))
 
 
 KNOWN_PREDICATES = {'nonfirst_view_operand': nonfirst_view_operand, 'sibling_subviews_unaliased': sibling_subviews_unaliased,
-                    'norm_over_nothing': norm_over_nothing, 'maybe_operand_all_at_once': maybe_operand_all_at_once}
+                    'maybe_operand_all_at_once': maybe_operand_all_at_once}
